@@ -336,7 +336,7 @@ Section Peq.
   Proof.
     intros H. unfold decl_allowed.
     set (tprop := fold_left _ style_prefixes (to_lower prop)). set (tval := remove_unicode (to_lower val)).
-    f_equal.
+    f_equal. f_equal.
     - specialize (H tprop). destruct (lookup tprop sps1), (lookup tprop sps2); cbn in H; try contradiction; [|reflexivity].
       apply existsb_same_set. exact H.
     - pose proof (pe_gs p q E tprop) as T. destruct (lookup tprop (globalStyles p)), (lookup tprop (globalStyles q)); cbn in T; try contradiction; [|reflexivity].
